@@ -159,6 +159,8 @@ def step_rule(ctx, rep, fn, direction, keylen, method_of=None):
         return _step_rule_method(ctx, rep, fn, direction, keylen, se, method_of)
     if not util.for_loops(ctx, se) and not cfg.back_edges(body) and _step_rule_fold(ctx, rep, fn, direction, keylen, se):
         return
+    if not util.for_loops(ctx, se) and not cfg.back_edges(body) and _step_rule_for_each(ctx, rep, fn, direction, keylen, se):
+        return
     if len(util.for_loops(ctx, se)) == 2 and _step_rule_two_pass(ctx, rep, fn, direction, keylen, se):
         return
     tr = _traversal(ctx, se)
@@ -424,6 +426,76 @@ def _step_rule_fold(ctx, rep, fn, direction, keylen, se):
     eff = se.param_effects()
     ok_state = not extra and strip(f["args"][1]) in (("deref", ("param", 4)), ("param", 4)) and f["args"][1] != ("param", 4) and eff.get(4) is not None and strip(eff.get(4)) == strip(f["term"]) and set(eff) <= {1, 3, 4}
     rep.check(ok_state, "state-discipline", fn, "only-the-step-writes", "index written by the per-byte step only; previous value = the accumulator started from *previous_value and stored back once", "index / previous value are also written outside the per-byte step: %s" % {k: show(v, maxdepth=2) for k, v in eff.items()}, body.loc())
+    rep.ok("step", fn, "unconditional", "the closure body is straight-line: the step is executed for every byte", cse.body.loc())
+    return True
+
+
+def _step_rule_for_each(ctx, rep, fn, direction, keylen, se):
+    """`data.iter_mut().for_each(|byte| { step })`: slice::IterMut::for_each calls the closure once
+    per element, in order; the per-byte step is the closure body, key / index / previous value
+    reached through its captures (the three parameters, each captured once).  Returns False when
+    the function is not of this form (nothing is reported then)."""
+    body = se.body
+    fes = [i for i in se.term_info.values() if i.get("k") == "call" and (i["name"].endswith("as std::iter::Iterator>::for_each") or i["name"] == "std::iter::Iterator::for_each")]
+    others = [i for i in se.term_info.values() if i.get("k") == "call" and i not in fes and i["name"] != "core::slice::<impl [T]>::iter_mut"]
+    if len(fes) != 1 or others or not (fes[0]["name"].startswith("<std::slice::IterMut<") or fes[0]["name"] == "std::iter::Iterator::for_each"):
+        return False
+    f = fes[0]
+    it = strip(f["args"][0])
+    over_data = util.is_call(it, "core::slice::<impl [T]>::iter_mut") and se.call_old.get((it[3][:2], 0)) == ("deref", ("param", 1))
+    cl = f["locargs"][1] if len(f.get("locargs", ())) > 1 else ("?",)
+    if not over_data or not (cl[0] == "agg" and cl[1] == "closure"):
+        return False
+    caps = cl[4]
+
+    def cap_of(n):
+        ks = [k for k, c in enumerate(caps) if c[0] == "ref" and c[1] == ("local", n)]
+        return ks[0] if len(ks) == 1 else None
+    ck, ci_, cp_ = cap_of(2), cap_of(3), cap_of(4)
+    if ck is None or ci_ is None or cp_ is None or len(caps) != 3 or caps[ci_][2] is not True or caps[cp_][2] is not True:
+        return False
+    cse = ctx.flat.run(cl[2])
+    if cse is None or cfg.back_edges(cse.body) or len(cse.final_states) != 1:
+        return False
+    fin = next(iter(cse.final_states.values()))
+    env_root = ("deref", ("param", 1))
+    key_t = ("deref", ("deref", ("field", env_root, ck)))
+    idx_loc = ("deref", ("deref", ("field", env_root, ci_)))
+    prev_loc = ("deref", ("deref", ("field", env_root, cp_)))
+    rep.ok("traversal", fn, "in-order-whole-slice", "data.iter_mut().for_each(..): the closure runs once per element of the whole slice, in order", body.loc(f["site"][1]))
+    kty = body.local_ty(2).peel_refs()
+    klen = kty.len if kty.k == "array" else None
+    rep.check(klen == keylen, "step", fn, "key-length", "key is [u8; %s]" % klen, "key array has length %s, expected %d" % (klen, keylen), body.loc())
+    env = {strip(idx_loc): "idx", strip(prev_loc): "prev", strip(("deref", ("param", 2))): "in", strip(key_t): "key"}
+    out_t = fin.get(("deref", ("param", 2)))
+    idx_t = fin.get(idx_loc)
+    prev_t = fin.get(prev_loc)
+    if out_t is None or idx_t is None or prev_t is None:
+        rep.violation("step", fn, "shape", "the for_each closure does not store the byte, advance the index and record the previous value", body.loc())
+        return True
+    out = arith.norm(out_t, env)
+    nidx = arith.norm(idx_t, env)
+    nprev = arith.norm(prev_t, env)
+    kb = ("idx", S("key"), S("idx"))
+    if direction == "enc":
+        want_out = wadd(xor(S("in"), kb), S("prev"))
+        want_prev = want_out
+    else:
+        want_out = xor(("wsub", S("in"), S("prev")), kb)
+        want_prev = S("in")
+    want_idx = ("rem", ("add", S("idx"), I(1)), I(keylen))
+    rep.check(out == want_out, "step", fn, "output-byte", "out = %s" % arith.show(out), "output byte is %s, expected %s" % (arith.show(out), arith.show(want_out)), cse.body.loc())
+    rep.check(nidx == want_idx, "step", fn, "index-update", "idx' = %s" % arith.show(nidx), "index update is %s, expected %s" % (arith.show(nidx), arith.show(want_idx)), cse.body.loc())
+    rep.check(nprev == want_prev, "step", fn, "previous-update", "prev' = %s" % arith.show(nprev), "previous-value update is %s, expected %s" % (arith.show(nprev), arith.show(want_prev)), cse.body.loc())
+    # nothing else is written through the closure, and the function itself writes the state nowhere else
+    extra = [k for k in fin if k[0] == "deref" and k not in (("deref", ("param", 2)), idx_loc, prev_loc)]
+    eff = se.param_effects()
+
+    def only_call(e):
+        e_ = e
+        return e_ is not None and e_[0] == "after" and util.is_call(e_[1]) and e_[1][3][:2] == f["site"][:2] and strip(e_[3])[0] in ("param", "deref")
+    ok_state = not extra and only_call(eff.get(3)) and only_call(eff.get(4)) and set(eff) <= {1, 3, 4}
+    rep.check(ok_state, "state-discipline", fn, "only-the-step-writes", "index and previous value are written by the per-byte step only", "index / previous value are also written outside the per-byte step: %s" % {k: show(v, maxdepth=2) for k, v in eff.items()}, body.loc())
     rep.ok("step", fn, "unconditional", "the closure body is straight-line: the step is executed for every byte", cse.body.loc())
     return True
 
